@@ -35,6 +35,9 @@ TraceNext ==
           /\ sendp' = ev.st.sp
           /\ receivep' = ev.st.rp
           /\ flags' = ToSet(ev.st.fl)
+          \* exclusive ownership, seen from the memory side: every plain access to a message buffer made in this step
+          \* (they all follow the step's atomic operation) is made by the context that holds the buffer after it
+          /\ \A j \in 1..Len(ev.hb) : (ev.hb[j].k \in {"R", "W"} /\ ev.hb[j].v = "slot") => slot'[ev.c] = ev.hb[j].i
 
 TraceSpec == TraceInit /\ [][TraceNext]_tvars
 
